@@ -50,12 +50,89 @@ def _case(draw):
     return c
 
 
+@st.composite
+def _const_level(draw):
+    """y' = rate with a terminal event y[0] - level * constants['lvl']; a callback REPLACES the constants dict after a few steps
+    (system.constants = {...}), moving the level: the run has to stop where the level in force is reached"""
+    method = draw(st.sampled_from(["RK4Solver", "RK45CKSolver", "RK8713MSolver", "EulerSolver", "ImplicitMidpoint", "RadauIIA5", "HeunEulerSolver", "Rich2:RK4Solver"]))
+    t0 = draw(st.sampled_from([0.0, -4.0, 10.0]))
+    sgn = draw(st.sampled_from([1.0, 1.0, -1.0]))
+    return dict(part="const_level", method=method, t0=t0, sgn=sgn, L=draw(st.sampled_from([4.0, 8.0])), dt=draw(st.sampled_from([0.125, 0.25, 0.3])),
+                rate=draw(st.sampled_from([1.0, 0.5, 2.0])), level=draw(st.sampled_from([1.0, 1.5, 2.5])), lvl2=draw(st.sampled_from([1.5, 2.0, 0.6, 0.8])),
+                change_after=draw(st.integers(1, 4)), how=draw(st.sampled_from(["replace", "replace", "in_place"])), infinite=draw(st.booleans()), dense=draw(st.booleans()))
+
+
 def parts(tier):
     q = tier == "quick"
-    return [Part("terminal", strategy=_case(), examples=600 if q else 12000, timeout=300)]
+    return [Part("terminal", strategy=_case(), examples=600 if q else 12000, timeout=300),
+            Part("const_level", strategy=_const_level(), examples=200 if q else 4000, timeout=300)]
 
+
+def _check_const_level(case):
+    import desolver as de
+    method = case["method"]
+    fam = M.family(M.get(method))
+    attrs = dict(method=method, family=fam, dense=bool(case["dense"]))
+    t0, sgn, rate = case["t0"], case["sgn"], case["rate"]
+    tf = t0 + sgn * case["L"]
+
+    def rhs(t, y, **kw):
+        return np.array([sgn * rate])          # y grows at `rate` per unit of integration time, in either direction
+
+    def ev(t, y, lvl=1.0, **kw):
+        return y[0] - case["level"] * lvl
+    ev.is_terminal = True
+    a = de.OdeSystem(rhs, y0=np.array([0.0]), t=(t0, tf), dense_output=case["dense"], dt=case["dt"], rtol=1e-8, atol=1e-8, constants=dict(lvl=1.0))
+    a.method = M.get(method)
+    state = dict(n=0, t_change=None)
+
+    def cb(system):
+        state["n"] += 1
+        if state["n"] == case["change_after"]:
+            if case["how"] == "replace":
+                system.constants = dict(lvl=case["lvl2"])
+            else:
+                system.constants["lvl"] = case["lvl2"]
+            state["t_change"] = float(system.t[-1])
+    err = traj.run_integrate(a, np.float64(sgn * np.inf) if case["infinite"] else None, step_limit=400, events=[ev], callbacks=[cb])
+    labels = ["const_level:" + case["how"], "target:inf" if case["infinite"] else "target:finite"]
+    if err is not None and not isinstance(err, traj.StepCap):
+        return [V("integrate_raised", "{}: raised {!r} caused by {!r}".format(method, err, err.__cause__), fam + exc_sig(err), **attrs)], dict(nontrivial=False, labels=labels)
+    capped = isinstance(err, traj.StepCap)
+    y_end, t_end = float(a.y[-1][0]), float(a.t[-1])
+    elapsed_change = abs(state["t_change"] - t0) if state["t_change"] is not None else None
+    # y(t) = rate * |t - t0|; level in force: `level` before the change, level * lvl2 after it
+    reach1 = case["level"] / rate                      # elapsed time at which the first level is reached
+    lv2 = case["level"] * case["lvl2"]
+    if elapsed_change is None or reach1 < elapsed_change - 1e-9:
+        want, which = reach1, 1.0                      # crossed before (or without) the change
+    elif abs(reach1 - elapsed_change) <= 1e-9:
+        return [], dict(nontrivial=False, labels=labels + ["level_touched_at_the_change"])      # g = 0 exactly when the level moves: no crossing either way
+    elif lv2 / rate > elapsed_change + 1e-9:
+        want, which = lv2 / rate, case["lvl2"]
+    else:
+        return [], dict(nontrivial=False, labels=labels + ["level_jumped_below_state"])       # g changes sign through the jump of the level, not along the run
+    horizon = case["L"] if not case["infinite"] else float("inf")
+    stopped = "terminated upon finding a triggered event" in a.integration_status
+    viols = []
+    if abs(want - horizon) <= 1e-9:
+        return [], dict(nontrivial=False, labels=labels + ["level_touched_at_the_end_of_the_span"])     # g = 0 at tf: no strict sign change inside the run
+    if want > horizon + 1e-9:
+        if stopped:
+            viols.append(V("spurious_terminal", "{}: stopped at elapsed {!r} although the level in force is only reached at {!r}, beyond the span".format(method, abs(t_end - t0), want), fam, **attrs))
+        return viols, dict(nontrivial=False, labels=labels + ["level_beyond_span"])
+    if capped or not stopped:
+        viols.append(V("terminal_event_not_honoured", "{}: the run {} although the level in force ({} x {}) is reached at elapsed {!r} (constants {} by a callback after {} steps, at elapsed {!r})".format(
+            method, "never stopped (cut by the harness after 400 steps)" if capped else "went on to t = {!r} (status {!r})".format(t_end, a.integration_status),
+            case["level"], which, want, case["how"] + "d", case["change_after"], elapsed_change), fam, **attrs))
+    elif abs(abs(t_end - t0) - want) > 1e-7 * max(1.0, want):
+        viols.append(V("terminal_location", "{}: stopped at elapsed {!r} with y = {!r}; the level in force ({} x {}) is reached at elapsed {!r} (constants {} by a callback at elapsed {!r})".format(
+            method, abs(t_end - t0), y_end, case["level"], which, want, case["how"] + "d", elapsed_change), fam, **attrs))
+    return viols, dict(nontrivial=bool(elapsed_change is not None and which != 1.0), labels=labels)
 
 def check(case):
+    if case["part"] == "const_level":
+        return _check_const_level(case)
     import desolver as de
     method = case["method"]
     fam = M.family(M.get(method))
